@@ -807,9 +807,16 @@ static void run_pointwise(const FieldIdx& A, Ctx& c) {
       gen_vec(r0.data(), 2 * m, r, vfam);
     memcpy(res, r0.data(), B);
   }
+  // one case in three writes the result over an operand (the supported in-place forms r == a and r == b; for the multiply-accumulate
+  // the aliased operand is then also the accumulator): the definition is evaluated on copies taken before the call
+  const int alias = (int)((seed >> 41) % 6);  // 1: r == a, 2: r == b, others: separate output
+  std::vector<double> a0v(a, a + 2 * m), b0v(b, b + 2 * m);
+  if (alias == 1) { res = a; if (addmul) r0 = a0v; }
+  if (alias == 2) { res = b; if (addmul) r0 = b0v; }
   const uint64_t ha = snap(a, B), hb = snap(b, B);
-  c.notef("%s m=%llu vfam=%s prefill=%d", kname.c_str(), (unsigned long long)m, vfam_name[vfam], prefill);
+  c.notef("%s m=%llu vfam=%s prefill=%d%s", kname.c_str(), (unsigned long long)m, vfam_name[vfam], prefill, alias == 1 ? " r==a" : alias == 2 ? " r==b" : "");
   call_pointwise(layout, addmul, e, (uint32_t)m, res, a, b);
+  a = a0v.data(), b = b0v.data();  // operand values as they were before the call
   Worst w;
   const int fam = addmul ? F_ADDMUL : F_MUL;
   bool nz = false;
@@ -826,7 +833,8 @@ static void run_pointwise(const FieldIdx& A, Ctx& c) {
                      bad_re ? res[ri] : res[ii], bad_re ? ex.re.v : ex.im.v, bad_re ? ex.re.S : ex.im.S, 2 * (bad_re ? ex.re.terms : ex.im.terms) + 4);
     }
   }
-  if (snap(a, B) != ha || snap(b, B) != hb) return c.failf("%s modified an input operand (m=%llu)", kname.c_str(), (unsigned long long)m);
+  if ((alias != 1 && snap(Aa.p, B) != ha) || (alias != 2 && snap(Bb.p, B) != hb)) return c.failf("%s modified an input operand (m=%llu)", kname.c_str(), (unsigned long long)m);
+  if (alias == 1 || alias == 2) c.cls(alias == 1 ? "pointwise:r==a" : "pointwise:r==b");
   if (ar.check_canaries() >= 0) return c.failf("%s wrote outside the 2m doubles of r (m=%llu)", kname.c_str(), (unsigned long long)m);
   ratio_class(c, fam, w);
   c.nontrivial = nz;
